@@ -163,8 +163,9 @@ def _both(argv, api, out_cli, out_api, compare):
         if isinstance(exc, KeyboardInterrupt):
             raise
         cli_err = f"{type(exc).__name__}: {exc}"
+    ret = None
     try:
-        api()
+        ret = api()
         api_err = None
     except Exception as exc:  # noqa: BLE001
         api_err = f"{type(exc).__name__}: {exc}"
@@ -174,6 +175,11 @@ def _both(argv, api, out_cli, out_api, compare):
             return f"cnvkit.py {shown}: command -> {cli_err or 'ok'}, library call -> {api_err or 'ok'}"
         return None
     d = compare(out_cli, out_api)
+    if d is None and isinstance(ret, tuple):
+        # the written table, parsed independently of cnvkit's writers, against the DataFrame the library returned
+        d = frame_vs_file(ret[0], out_cli, header=ret[1])
+        if d is not None:
+            d = "written table vs returned table: " + d
     return None if d is None else f"cnvkit.py {shown}: output differs from the library call on the same files: {d}"
 
 
@@ -189,6 +195,43 @@ def _cmp_text(a, b):
         if x != y:
             return f"line {i + 1}: {x[:160]!r} vs {y[:160]!r}"
     return f"{len(ta)} lines vs {len(tb)} lines"
+
+
+def frame_vs_file(df, path, header=True):
+    """The table a command wrote, parsed here cell by cell (tab-separated, optional header line), against the DataFrame
+    the library returned: strings and integers exactly, floats to the 6 significant digits the commands document.
+    -> None or the first difference. (Independent of cnvkit's own table writers.)"""
+    import math
+
+    lines = open(path).read().splitlines()
+    if header:
+        if not lines or lines[0].split("\t") != [str(c) for c in df.columns]:
+            return f"header {lines[:1]} vs columns {list(df.columns)}"
+        lines = lines[1:]
+    if len(lines) != len(df):
+        return f"{len(lines)} data lines vs {len(df)} rows"
+    for i, (line, row) in enumerate(zip(lines, df.itertuples(index=False))):
+        cells = line.split("\t")
+        if len(cells) != len(row):
+            return f"line {i + 1}: {len(cells)} cells vs {len(row)} columns"
+        for cell, val in zip(cells, row):
+            if isinstance(val, (bool,)) or val is None:
+                ok = cell == str(val) or (val is None and cell == "")
+            elif isinstance(val, float) or type(val).__name__.startswith("float"):
+                if math.isnan(val):
+                    ok = cell in ("", "nan", "NaN", "NA")
+                else:
+                    try:
+                        ok = abs(float(cell) - float(val)) <= 6e-6 * abs(float(val)) + 1e-300
+                    except ValueError:
+                        ok = False
+            elif isinstance(val, int) or type(val).__name__.startswith(("int", "uint")):
+                ok = cell == str(int(val))
+            else:
+                ok = cell == str(val)
+            if not ok:
+                return f"line {i + 1}: cell {cell!r} vs value {val!r}"
+    return None
 
 
 def _reseed():
@@ -306,6 +349,7 @@ def genemetrics_diff(cnarr, segarr, tmpdir, threshold, min_probes, skip_low, mal
         is_female = _sample_sex(arr, female, male_ref, par)
         tab = reports.do_genemetrics(arr, read_cna(cns) if cns else None, float(threshold), min_probes, skip_low, male_ref, is_female, par)
         cmdutil.write_dataframe(out_api, tab)
+        return tab, True
 
     return _both(argv, api, out_cli, out_api, _cmp_text)
 
@@ -321,7 +365,9 @@ def breaks_diff(cnarr, segarr, tmpdir, min_probes, tag="k"):
     argv = ["breaks", cnr, cns, "-m", min_probes, "-o", out_cli]
 
     def api():
-        cmdutil.write_dataframe(out_api, reports.do_breaks(read_cna(cnr), read_cna(cns), min_probes))
+        tab = reports.do_breaks(read_cna(cnr), read_cna(cns), min_probes)
+        cmdutil.write_dataframe(out_api, tab)
+        return tab, True
 
     return _both(argv, api, out_cli, out_api, _cmp_text)
 
@@ -343,7 +389,9 @@ def sex_diff(cnarrs, tmpdir, male_ref, par=None, tag="x"):
         argv += ["--diploid-parx-genome", par]
 
     def api():
-        cmdutil.write_dataframe(out_api, commands.do_sex([read_cna(p) for p in paths], male_ref, par), header=True)
+        tab = commands.do_sex([read_cna(p) for p in paths], male_ref, par)
+        cmdutil.write_dataframe(out_api, tab, header=True)
+        return tab, True
 
     return _both(argv, api, out_cli, out_api, _cmp_text)
 
@@ -375,6 +423,7 @@ def export_bed_diff(segarr, tmpdir, ploidy, male_ref, female, par, label_mode, s
         label = None if label_mode == "genes" else arr.sample_id if label_mode == "sample" else label_mode
         tbl = export.export_bed(arr, ploidy, male_ref, par, is_female, label, show)
         cmdutil.write_dataframe(out_api, pd.concat([tbl]), header=False)
+        return tbl, False
 
     return _both(argv, api, out_cli, out_api, _cmp_text)
 
@@ -429,7 +478,9 @@ def export_seg_diff(paths, tmpdir, enumerate_chroms, tag="q"):
         argv.append("--enumerate-chroms")
 
     def api():
-        cmdutil.write_dataframe(out_api, export.export_seg(list(paths), chrom_ids=enumerate_chroms))
+        tab = export.export_seg(list(paths), chrom_ids=enumerate_chroms)
+        cmdutil.write_dataframe(out_api, tab)
+        return tab, True
 
     return _both(argv, api, out_cli, out_api, _cmp_text)
 
